@@ -158,6 +158,10 @@ LIST_TEMPLATES = [
 	'def {n}({h}) -> int:\n\tys = [a] * 3\n\tys[1] = b\n\treturn (ys[0] {0} ys[1]) - ys[2] + len(ys)\n',
 	'def {n}({h}) -> int:\n\tn = 2 if c else 3\n\tys: list[int] = [0] * n\n\tfor i in range(n):\n\t\tys[i] = i {0} a\n\treturn ys[n - 1] + len(ys)\n',
 	'def {n}({h}) -> int:\n\tys = [b] * (len(xs) + 1)\n\tt = 0\n\tfor y in ys:\n\t\tt = t {0} y\n\treturn t + len(ys)\n',
+	# comprehensions over range() with a start and a step
+	'def {n}({h}) -> int:\n\tys = [i {0} a for i in range(1, 4)]\n\treturn ys[0] + ys[2] + len(ys)\n',
+	'def {n}({h}) -> int:\n\tn = 2 if c else 3\n\tys = [i {0} b for i in range(n)]\n\tzs = [i for i in range(1, n) if i {1} a]\n\treturn ys[n - 1] + len(ys) + len(zs)\n',
+	'def {n}({h}) -> int:\n\tys = [i {0} a for i in range(3, 0, -1)]\n\tt = 0\n\tfor y in ys:\n\t\tt = t * 2 + y\n\treturn t + len(ys)\n',
 	# comprehensions
 	'def {n}({h}) -> int:\n\tys = [x {0} a for x in xs]\n\tt = 0\n\tfor y in ys:\n\t\tt += y\n\treturn t\n',
 	'def {n}({h}) -> int:\n\tys = [x {0} a for x in xs if x {1} b]\n\treturn len(ys) + (ys[0] if len(ys) > 0 else 0)\n',
